@@ -80,7 +80,7 @@ def mk_rng(kind, seed):
 
 RANDOM_STAGES = ('reshuffle', 'local2', 'local4', 'once', 'apply_reshuffle',
                  'apply_local')
-PRE = ('none', 'map', 'slice', 'items')
+PRE = ('none', 'map', 'slice', 'items', 'list')   # 'list': a source without keys
 POST = ('none', 'map', 'batch2', 'items', 'concat_plain', 'filter', 'batch_unbatch',
         'catch', 'copy', 'cache_after', 'tile2', 'concat_self')
 PREFETCH = ('p1', 'p2t', 'p1b3')
@@ -90,7 +90,9 @@ def build(ld, prog, seed, rngkind):
     """prog = (n, pre, stage, posts...)"""
     n, pre, stage, posts = prog
     ds = ld.new({f'k{i}': i for i in range(n)})
-    if pre == 'map':
+    if pre == 'list':
+        ds = ld.new(list(range(n)))
+    elif pre == 'map':
         ds = ds.map(f)
     elif pre == 'slice':
         ds = ds[::-1]
@@ -138,7 +140,7 @@ def build(ld, prog, seed, rngkind):
 
 def supported(prog):
     n, pre, stage, posts = prog
-    has_items = True
+    has_items = pre != 'list'
     for post in posts:
         if post == 'items' and not has_items:
             return False
@@ -182,6 +184,56 @@ def check_twin(ld, prog, seed, rngkind, res):
     res.count('twin_comparisons')
     if a != b:
         res.violation('twin-differs', case, {'a': a, 'b': b}, sig=sig)
+    # --- a twin that is asked for things before (and between) its epochs:
+    # keys, a length, a key lookup, and key iteration - which a pipeline over
+    # a key-less source refuses.  None of these is an epoch; the orders of the
+    # epochs that follow are the same.
+    pr = build(ld, prog, seed, rngkind)
+    refused = 0
+    outs = []
+    for ep in range(3):
+        for probe in (lambda: pr.keys(), lambda: len(pr), lambda: pr['k0'],
+                      lambda: pr.indexable):
+            try:
+                probe()
+            except BaseException:
+                pass
+        # (not below a lazy apply: it freezes - draws - whenever an iteration
+        # is requested, also one that is refused afterwards)
+        if pre == 'list' and not stage.startswith('apply_') and 'catch' not in posts:
+            try:
+                got = []
+                for x in pr.items():
+                    got.append(x)
+            except BaseException:
+                pass
+            if got:
+                refused = None      # key iteration delivered something: an epoch
+                break
+            refused += 1
+        np.random.seed(80 + ep)
+        outs.append(list(pr))
+    if refused is not None:
+        res.count('probed_twin_comparisons')
+        res.count('key_iterations_refused_between_epochs', refused)
+        if outs != a:
+            res.violation('twin-differs', {**case, 'probed_between_epochs': True},
+                          {'a': a, 'probed_twin': outs}, sig={**sig, 'probed': True})
+    # a snapshot (new(ds) tries key iteration first and falls back) is the
+    # first epoch of a fresh build
+    if pre == 'list' and stage in ('reshuffle', 'once', 'local2', 'local4') \
+            and 'catch' not in posts:
+        try:
+            np.random.seed(90)
+            snap = list(ld.new(build(ld, prog, seed, rngkind)))
+        except BaseException:
+            snap = None
+        if snap is not None:
+            res.count('snapshot_comparisons')
+            if snap != a[0]:
+                res.violation('twin-differs', {**case, 'snapshot': True},
+                              {'first_epoch_of_twin': a[0], 'snapshot': snap},
+                              sig={**sig, 'snapshot': True})
     # --- copy of a fresh build
     try:
         c_ds = build(ld, prog, seed, rngkind).copy()
